@@ -46,6 +46,19 @@ type sess struct {
 // startActor runs a protocol-conformant client for the rest of the execution.
 func (s *sess) startActor() {
 	s.actor = true
+	if s.pc != nil && s.pc.EIO == 3 {
+		// a revision-3 client sends the pings itself
+		vsched.GoNamed("actor-pinger", func() {
+			for i := 0; i < 8; i++ {
+				vsched.Sleep(sPingInterval)
+				if s.rec.Count("close") > 0 {
+					return
+				}
+				r := s.pc.Post([]Pkt{{Type: '2'}})
+				r.Wait()
+			}
+		})
+	}
 	if s.pc != nil {
 		vsched.GoNamed("actor", func() {
 			s.w.BeginAction()
